@@ -456,3 +456,521 @@ GENERATORS = {
     "C01": gen_C01, "C02": gen_C02, "C03": gen_C03, "C04": gen_C04, "C07": gen_C07,
     "C12": gen_C12, "C13": gen_C13, "C14": gen_C14, "C15": gen_C15,
 }
+
+
+# ====================================================================== file geometry
+
+def _const_len(name):
+    import os, re
+    path = os.path.join(os.path.dirname(os.path.abspath(__file__)), "..", "lean", "BS", "Generated", "Consts.lean")
+    txt = open(path).read()
+    m = re.search(r"def %s : List UInt8 := \[([^\]]*)\]" % name, txt)
+    return len([x for x in m.group(1).split(",") if x.strip()]) if m else 0
+
+
+def header_len(p, user_len):
+    text = _const_len("textPre") + 1 + _const_len("textMid") + len(str(p)) + _const_len("textPost")
+    return 4 + 4 + text + user_len
+
+
+def max_user_header(p):
+    text = _const_len("textPre") + 1 + _const_len("textMid") + len(str(p)) + _const_len("textPost")
+    return 65535 - 4 - text
+
+
+def marker_free(p, ts_list):
+    """TailClean in the generator: for payload < 4 no raw timestamp line of a section may
+    start with FF FF (known finding marker-tail, DESIGN.md §9)"""
+    if p >= 4:
+        return True
+    for t in ts_list:
+        b = t.to_bytes(8, "little")
+        ls = p + 2
+        k = min(p, 4)
+        raw = b[2 * k:]
+        for i in range(0, len(raw), ls):
+            if raw[i:i + 2] == b"\xff\xff":
+                return False
+    return True
+
+
+# ====================================================================== C05 / C06
+
+def _after_open_obs(h, rng, appends=True):
+    h.op("read_all s=U e=U")
+    h.op("len")
+    h.op("range")
+    h.op("last_line")
+    if appends:
+        last = h.last() if h.ts else 0
+        h.op(f"pushrun ts0={last + 1 + rng.choice([0, 3, MAXD, MAXD + 1])} step={rng.choice([1, 5, 70000])} count=3 seed={rng.randrange(1000)}")
+        h.op("read_all s=U e=U")
+        h.op("close")
+        h.op("files")
+        h.open()
+        h.op("read_all s=U e=U")
+    h.op("close")
+
+
+def gen_C05(rng, tier):
+    out = []
+    nh = 10 if tier == "quick" else 80
+    pls = [0, 1, 2, 3, 4, 5, 8, 204]
+    for i in range(nh):
+        p = pls[i % len(pls)]
+        h = Hist(p, hdr=bytes(rng.randrange(256) for _ in range(rng.choice([0, 3]))))
+        h.new()
+        # short history with 2-4 sections
+        h.random_history(rng, rng.randrange(1, 4))
+        if len(h.ts) > 60:
+            continue
+        H = header_len(p, len(h.hdr))
+        total = H + h.off
+        idx_total = 4 + 16 * len(h.sections)
+        h.op("close")
+        h.op("save 0")
+        cuts = list(range(H, total + 1))
+        if tier == "quick" and len(cuts) > 24:
+            # all cut points inside the last two sections' tails, plus a sample
+            tail = [c for c in cuts if c >= total - 3 * (h.ms + h.ls)]
+            cuts = sorted(set(tail[-16:] + rng.sample(cuts, 8)))
+        elif len(cuts) > 150:
+            cuts = sorted(set(cuts[-100:] + rng.sample(cuts, 50)))
+        for c in cuts:
+            states = ["intact", "rm", "cut16", "cutmid", "lag", "short", "stalepart"]
+            if tier == "quick":
+                states = rng.sample(states, 2)
+            for stt in states:
+                h.op("restore 0")
+                h.op(f"cut data {c}")
+                if stt == "rm":
+                    h.op("rm index")
+                elif stt == "cut16" and len(h.sections) > 1:
+                    h.op(f"cut index {4 + 16 * rng.randrange(0, len(h.sections))}")
+                elif stt == "cutmid":
+                    h.op(f"cut index {rng.randrange(4, idx_total + 1)}")
+                elif stt == "lag" and len(h.sections) > 1:
+                    h.op(f"cut index {idx_total - 16}")
+                elif stt == "short":
+                    h.op(f"cut index {rng.choice([0, 1, 2, 3])}")
+                elif stt == "stalepart":
+                    h.op("put part 00000a0a")
+                    if rng.random() < 0.5:
+                        h.op("rm index")
+                hh = Hist(p)
+                hh.ts = [t for t in h.ts]
+                hh.ops = h.ops
+                # what survives is decided by the spec; the generator only needs a later timestamp
+                h.open()
+                h.op("read_all s=U e=U")
+                h.op("len")
+                h.op("range")
+                h.op(f"pushrun ts0={h.last() + 1 + rng.choice([0, MAXD + 1])} step=7 count=2 seed=5")
+                h.op("read_all s=U e=U")
+                h.op("close")
+                h.op("files")
+        if marker_free(p, h.ts):
+            out.append((f"cuts-p{p}", h.script()))
+    # crash-repair-append chains
+    for i in range(4 if tier == "quick" else 30):
+        p = rng.choice(pls)
+        h = Hist(p)
+        h.new()
+        h.seg_dense(rng, count=5)
+        H = header_len(p, 0)
+        ok = True
+        for _ in range(5):
+            h.op("close")
+            # the generator does not know the file length after repair; cut relative to a listing is
+            # not possible offline, so cut at an absolute offset inside the canonical encoding
+            total = H + h.off
+            c = rng.randrange(max(H, total - 2 * (h.ms + h.ls)), total + 1)
+            h.op(f"cut data {c}")
+            if rng.random() < 0.5:
+                h.op(rng.choice(["rm index", "cut index 4", "cut index 21"]))
+            h.open()
+            h.op("read_all s=U e=U")
+            h.op("len")
+            # re-sync the generator's picture: it cannot, so start a fresh run far ahead
+            nxt = (h.last() or 0) + 200000
+            h2 = Hist(p)
+            h.op(f"pushrun ts0={nxt} step=3 count=4 seed=9")
+            h.ts.append(nxt + 9)
+            h.full = None
+            h.op("read_all s=U e=U")
+            ok = False
+            break
+        out.append((f"chain-p{p}", h.script()))
+    # large files: rebuild path crosses read buffers
+    for p in ([0, 4] if tier == "quick" else [0, 1, 2, 3, 4, 8]):
+        h = big_sparse(p, lines_for_bytes(p, 3 * 16384 + 200, True), seed=p + 21)
+        H = header_len(p, 0)
+        total = H + h.off
+        h.op("close")
+        h.op("save 0")
+        for c in [total - 1, total - h.ls, total - h.ls - 1, total - h.ms - h.ls, total - h.ms - h.ls + 1 + rng.randrange(h.ms)]:
+            for ix in ["rm index", f"cut index {4 + 16 * (len(h.sections) // 2)}", None]:
+                h.op("restore 0")
+                h.op(f"cut data {c}")
+                if ix:
+                    h.op(ix)
+                h.open()
+                h.op("len")
+                h.op("range")
+                h.op("read_all s=U e=U")
+                h.op("close")
+                h.op("files")
+        out.append((f"bigcut-p{p}", h.script()))
+    return out
+
+
+def gen_C06(rng, tier):
+    out = []
+    for p in ([0, 2, 4] if tier == "quick" else [0, 1, 2, 3, 4, 5, 8, 16]):
+        h = big_sparse(p, lines_for_bytes(p, 3 * 16384 + 700, True), seed=p + 31)
+        h.op("files")
+        for ix in ["rm index", "cut index 4", f"cut index {4 + 16 * 7}", f"cut index {4 + 16 * 7 + 5}", "cut index 2", None]:
+            h.op("close")
+            if ix:
+                h.op(ix)
+            h.open()
+            h.op("files")
+            h.op("len")
+            v = h.some_values(rng, 2)
+            h.op(f"read_all s=I:{min(v)} e=I:{max(v)}")
+            h.pushrun(h.last() + rng.choice([1, 70000]), 1, 3, 3)
+            h.op("files")
+        out.append((f"big-p{p}", h.script()))
+    for h0 in _histories(rng, tier, PAYLOADS_SMALL + [16]):
+        h = Hist(h0.p, hdr=h0.hdr)
+        h.new()
+        for _ in range(rng.randrange(2, 6)):
+            rng.choice([h.seg_dense, h.seg_edge, h.seg_sparse, h.seg_gap])(rng)
+            h.op("files")
+            r = rng.random()
+            nsec = len(h.sections)
+            h.op("close")
+            if r < 0.25:
+                h.op("rm index")
+            elif r < 0.5:
+                h.op(f"cut index {4 + 16 * rng.randrange(0, nsec + 1)}")
+            elif r < 0.7:
+                h.op(f"cut index {rng.randrange(0, 4 + 16 * nsec + 1)}")
+            elif r < 0.8:
+                h.op("put part 00000a0a")
+                h.op("rm index")
+            h.open()
+            h.op("files")
+            h.op("len")
+            v = h.some_values(rng, 2)
+            h.op(f"read_all s=I:{min(v)} e=I:{max(v)}")
+        if marker_free(h.p, h.ts):
+            out.append(("idx", h.script()))
+    return out
+
+
+# ====================================================================== caches
+
+def gen_C08(rng, tier):
+    out = []
+    nh = 12 if tier == "quick" else 100
+    Bs = [1, 2, 3, 4, 7, 10, 64]
+    for i in range(nh):
+        p = rng.choice([0, 1, 2, 3, 4, 5, 8])
+        caches = sorted(rng.sample(Bs, rng.choice([1, 2, 3])))
+        h = Hist(p, caches=caches)
+        mode = i % 3
+        if mode == 0:           # attached from creation
+            h.new()
+            h.random_history(rng, rng.randrange(1, 5))
+            h.op("files")
+        elif mode == 1:         # created on first open over existing data
+            h.caches = []
+            h.new()
+            h.random_history(rng, rng.randrange(1, 5))
+            h.op("close")
+            h.caches = caches
+            h.open()
+            h.op("files")
+            h.seg_dense(rng)
+            h.op("files")
+        else:                   # large magnitudes
+            h.new()
+            base = rng.choice([U64 - 10 ** 6, U64 - 70000 * 40, 1 << 63, (1 << 63) - 5])
+            cnt = rng.randrange(3, 30)
+            h.pushrun(base, rng.choice([1, 3, 70000]) if base < U64 - 70000 * 35 else 1, cnt, 5)
+            h.op("files")
+        if marker_free(p, h.ts):
+            out.append((f"cache-{mode}", h.script()))
+    # source spanning several buffers, cache created afterwards (reader carry path)
+    for p in ([0, 4] if tier == "quick" else [0, 1, 2, 3, 4]):
+        h = big_sparse(p, lines_for_bytes(p, 2 * 16384 + 300, True), seed=p + 41)
+        h.op("close")
+        h.caches = [3, 10]
+        h.open()
+        h.op("files")
+        out.append((f"bigsrc-p{p}", h.script()))
+    return out
+
+
+def gen_C09(rng, tier):
+    out = []
+    for B in [1, 2, 3, 4, 10]:
+        for p in ([0, 4] if tier == "quick" else [0, 1, 2, 3, 4, 8]):
+            h = Hist(p, caches=[B])
+            h.new()
+            n = rng.randrange(1, 3 * B + 3)
+            t = rng.choice([0, 5, 1000])
+            for _ in range(n):
+                h.push(t, rng)
+                t += rng.choice([1, 2, 50, MAXD + 1])
+                if rng.random() < 0.4:
+                    h.op("files")
+                    h.reopen()
+                    h.op("files")
+            h.op("files")
+            if marker_free(p, h.ts):
+                out.append((f"reopen-B{B}-p{p}", h.script()))
+    # torn / missing cache files
+    for i in range(6 if tier == "quick" else 40):
+        p = rng.choice([0, 2, 4, 8])
+        B = rng.choice([2, 3, 4])
+        h = Hist(p, caches=[B])
+        h.new()
+        h.random_history(rng, 2)
+        if len(h.ts) < B + 1 or len(h.ts) > 80 or not marker_free(p, h.ts):
+            continue
+        h.op("files")
+        h.op("close")
+        h.op("save 0")
+        H = 2000     # larger than any cache header? no: cut positions are absolute; sample widely
+        for _ in range(12 if tier == "quick" else 60):
+            h.op("restore 0")
+            r = rng.random()
+            if r < 0.2:
+                h.op(f"rm c{B}")
+                h.op(f"rm c{B}i")
+            elif r < 0.3:
+                h.op(f"rm c{B}i")
+            else:
+                # cut inside the data region of the cache file (header is > 1300 bytes)
+                h.op(f"cut c{B} {rng.randrange(1400, 1400 + (len(h.ts) // B + 2) * (h.ms + h.ls))}")
+                if rng.random() < 0.3:
+                    h.op(f"rm c{B}i")
+            h.open()
+            h.op("files")
+            h.op("close")
+        out.append((f"torn-B{B}-p{p}", h.script()))
+    # source torn with the cache ahead
+    for i in range(6 if tier == "quick" else 40):
+        p = rng.choice([0, 2, 4])
+        B = rng.choice([2, 3])
+        h = Hist(p, caches=[B])
+        h.new()
+        h.seg_dense(rng, count=rng.randrange(2 * B, 6 * B))
+        if not marker_free(p, h.ts):
+            continue
+        Hh = header_len(p, 0)
+        total = Hh + h.off
+        h.op("close")
+        h.op("save 0")
+        for k in range(1, min(len(h.ts), 3 * B + 1)):
+            h.op("restore 0")
+            h.op(f"cut data {total - k * h.ls}")
+            h.open()
+            h.op("read_all s=U e=U")
+            h.op("close")
+        out.append((f"ahead-B{B}-p{p}", h.script()))
+    return out
+
+
+def gen_C10(rng, tier):
+    out = []
+    fmt_ns = [1, 2, 3, 10, 100, 10 ** 6]
+    nh = 10 if tier == "quick" else 120
+    for i in range(nh):
+        p = PAYLOADS_SMALL[i % len(PAYLOADS_SMALL)]
+        h = Hist(p)
+        h.new()
+        if i % 4 == 3:
+            base = rng.choice([U64 - 10 ** 6, (1 << 63) + 5, U64 - 200])
+            h.pushrun(base, 1, rng.randrange(2, 60), 3)
+        else:
+            h.random_history(rng, rng.randrange(1, 5))
+        vals = h.critical_values()
+        for _ in range(30 if tier == "quick" else 120):
+            n = rng.choice(fmt_ns)
+            h.op(f"read_n n={n} s={bound(rng.choice(ALL_KINDS), rng.choice(vals))} e={bound(rng.choice(ALL_KINDS), rng.choice(vals))}")
+        h.op("read_n n=1 s=U e=U")
+        h.op("read_n n=2 s=U e=U")
+        out.append(("readn", h.script()))
+    return out
+
+
+def gen_C11(rng, tier):
+    out = []
+    nh = 12 if tier == "quick" else 120
+    for i in range(nh):
+        p = rng.choice([0, 2, 4, 8])
+        caches = sorted(rng.sample([2, 3, 4, 10], rng.choice([1, 2])))
+        h = Hist(p, caches=caches)
+        h.new()
+        if i % 3 == 0:
+            h.pushrun(rng.choice([0, 5]), 30000, rng.randrange(20, 150), 3)     # sparse: P15 shape
+        else:
+            h.random_history(rng, rng.randrange(2, 6))
+        if not marker_free(p, h.ts):
+            continue
+        vals = h.critical_values()
+        for _ in range(40 if tier == "quick" else 150):
+            n = rng.choice([1, 2, 3, 5, 10, 100])
+            if rng.random() < 0.5 and len(h.ts) > 2:
+                # short ranges: both bounds close together
+                a = rng.choice(h.ts)
+                b = a + rng.choice([0, 1, 5, 100, MAXD, MAXD + 1, 200000])
+                h.op(f"read_n n={n} s={bound(rng.choice(['I', 'E']), a)} e={bound(rng.choice(['I', 'E']), min(b, U64))}")
+            else:
+                h.op(f"read_n n={n} s={bound(rng.choice(ALL_KINDS), rng.choice(vals))} e={bound(rng.choice(ALL_KINDS), rng.choice(vals))}")
+        out.append(("readnc", h.script()))
+    return out
+
+
+# ====================================================================== C16 C17 C18 C19
+
+def gen_C16(rng, tier):
+    out = []
+    reads = ["read_all s=U e=U", "len", "range", "last_line", "is_empty", "payload_size", "n_lines s=U e=U",
+             "read_first_n n=2 s=U e=U", "read_n n=3 s=U e=U", "page n=2"]
+    for h0 in _histories(rng, tier, PAYLOADS_SMALL):
+        caches = rng.choice([[], [2], [2, 4]])
+        h = Hist(h0.p, caches=caches)
+        h.new()
+        for _ in range(rng.randrange(2, 5)):
+            rng.choice([h.seg_dense, h.seg_edge, h.seg_sparse, h.seg_gap])(rng)
+            for r in rng.sample(reads, 4):
+                h.op(r)
+            v = h.some_values(rng, 2)
+            h.op(f"read_all s=I:{min(v)} e=E:{max(v)}")
+            h.push(h.last(), rng)               # refused
+            if rng.random() < 0.3:
+                h.reopen()
+        if marker_free(h.p, h.ts):
+            out.append(("audit", h.script()))
+    return out
+
+
+def gen_C17(rng, tier):
+    out = []
+    for i in range(10 if tier == "quick" else 60):
+        p = rng.choice([0, 1, 2, 4, 8, 100, 12345])
+        mx = max_user_header(p)
+        ul = rng.choice([0, 1, 2, 17, 300, mx - 1, mx, mx + 1, mx + 2, 70000])
+        hdr = bytes(rng.randrange(256) for _ in range(ul))
+        if rng.random() < 0.2 and ul >= 30:
+            hdr = b"For this file that is: 7 bytes. This is a byteseries 9 file," + hdr[60:]
+        h = Hist(p, hdr=hdr)
+        h.op("files")
+        h.op("open p=any hdr=any caches=- cb=none ext=0")        # missing
+        h.op("files")
+        h.new()
+        h.op("files")
+        h.op("payload_size")
+        h.op("close")
+        h.op("files")
+        h.op(f"new p={p} hdr={hexs(hdr)} caches=-")              # over existing
+        h.op("close")
+        h.op("files")
+        for _ in range(4):
+            wantp = rng.choice([None, p, p + 1, 0 if p else 3])
+            wanth = rng.choice([None, hdr, hdr + b"x", hdr[:-1] if hdr else b"y", b""])
+            h.open(hdr=wanth, p=wantp, ext=rng.choice([0, 1]))
+            h.op("payload_size")
+            h.op("close")
+            h.op("files")
+        out.append(("contract", h.script()))
+    # stale sidecar files make a create fail: nothing new may be left behind
+    for stale in ["index", "part", "c2", "c2i"]:
+        h = Hist(4, caches=[2] if stale.startswith("c") else [])
+        h.op(f"put {stale} 00000a0a")
+        h.op("files")
+        h.new()
+        h.op("close")
+        h.op("files")
+        out.append((f"stale-{stale}", h.script()))
+    return out
+
+
+def gen_C18(rng, tier):
+    out = []
+    for i in range(14 if tier == "quick" else 120):
+        p = PAYLOADS_SMALL[i % len(PAYLOADS_SMALL)]
+        h = Hist(p)
+        h.new()
+        for _ in range(rng.randrange(2, 5)):
+            rng.choice([h.seg_dense, h.seg_sparse, h.seg_gap, h.seg_edge])(rng)
+        if len(h.sections) < 2 or not marker_free(p, h.ts):
+            continue
+        H = header_len(p, 0)
+        h.op("close")
+        h.op("save 0")
+        for k in range(len(h.sections)):
+            for cb in ["none", "F", "T"]:
+                h.op("restore 0")
+                off = H + h.sections[k][1] + h.ls
+                h.op(f"damage data {off} {rng.choice(['0000', '0100', 'feff', 'fffe'])}")
+                h.open(cb=cb)
+                h.op("read_all s=U e=U")
+                h.op("close")
+        out.append((f"damage-p{p}", h.script()))
+    return out
+
+
+def gen_C19(rng, tier):
+    out = []
+    bounds = ["U", "I:0", "E:0", f"I:{U64}", f"E:{U64}", "I:1", "E:1", f"I:{U64 - 1}"]
+    calls = []
+    for s in bounds:
+        for e in bounds:
+            calls.append(f"read_all s={s} e={e}")
+            calls.append(f"n_lines s={s} e={e}")
+            for n in (0, 1):
+                calls.append(f"read_first_n n={n} s={s} e={e}")
+                calls.append(f"read_n n={n} s={s} e={e}")
+    acc = ["len", "is_empty", "range", "last_line", "payload_size", "page n=1", "page n=0"]
+    shapes = []
+    for p in [0, 1, 4, 5000, 20000]:
+        shapes.append((p, [], "empty"))
+        shapes.append((p, [0], "zero"))
+        shapes.append((p, [U64], "max"))
+        shapes.append((p, [0, U64], "both"))
+        shapes.append((p, [5, 6, 100000, U64 - 1, U64], "mixed"))
+    if tier == "quick":
+        shapes = [s for s in shapes if s[0] in (0, 4, 5000)]
+    for p, tss, name in shapes:
+        for caches in ([[]] if p > 100 else [[], [2, 3]]):
+            h = Hist(p, caches=caches)
+            h.new()
+            for t in tss:
+                h.push(t, rng)
+            sel = calls if tier != "quick" else rng.sample(calls, 60)
+            for c in sel + acc:
+                h.op(c)
+            h.reopen()
+            for c in rng.sample(calls, 20) + acc:
+                h.op(c)
+            if p >= 4 or marker_free(p, h.ts):
+                out.append((f"{name}-p{p}-c{len(caches)}", h.script()))
+    # maximal header
+    for p in [0, 4]:
+        mx = max_user_header(p)
+        h = Hist(p, hdr=bytes(mx))
+        h.new()
+        h.push(3, rng)
+        h.reopen()
+        h.op("read_all s=U e=U")
+        out.append((f"maxhdr-p{p}", h.script()))
+    return out
+
+
+GENERATORS.update({"C05": gen_C05, "C06": gen_C06, "C08": gen_C08, "C09": gen_C09, "C10": gen_C10, "C11": gen_C11,
+                   "C16": gen_C16, "C17": gen_C17, "C18": gen_C18, "C19": gen_C19})
